@@ -127,6 +127,10 @@ pub fn begin_run_styled(seed: u64, start_us: i64, style_seed: u64) {
     crate::vfs::begin_run(seed, None);
 }
 
+pub fn set_id_ctr(n: u64) {
+    ID_CTR.store(n, Ordering::SeqCst);
+}
+
 pub fn ids_issued() -> u64 {
     ID_CTR.load(Ordering::SeqCst)
 }
